@@ -215,6 +215,7 @@ satisfies the constraints (`back_in_domain`), named coordinates are the back-tra
 def setVerdict (impl : Option (List String)) (cs : List (Coef F)) (before after : W F) (upd : List (Option F)) (wf : Bool) : String :=
   match impl with
   | none => "-"
+  | some ("exc:constraint" :: _) => "FAIL:set_never_raises"
   | some t =>
     match splitSemi t with
     | [[f], ps, _] =>
@@ -458,6 +459,7 @@ def step (s : St) (op : List String) (impl : Option (List String)) : St × Strin
           let vals := [Reparam.value (Poly.f cs) wm, Reparam.value (Poly.f cs) w0, Reparam.value (Poly.f cs) wp,
             wD1 cs wm i, wD1 cs w0 i, wD1 cs wp i, wD2 cs w0 i]
           let verdict := match impl with
+            | some ("exc:constraint" :: _) => "FAIL:set_never_raises"
             | some t => match fls? t with
               | some iv => wfdOk cs w0 i h iv
               | none => "FAIL:parse"
@@ -475,6 +477,7 @@ def step (s : St) (op : List String) (impl : Option (List String)) : St × Strin
         | .ok (wm, wp, w0) =>
           let vals := [wD1 cs wm i, wD1 cs wp i, wD2x cs w0 i j]
           let verdict := match impl with
+            | some ("exc:constraint" :: _) => "FAIL:set_never_raises"
             | some t => match fls? t with
               | some iv => wfdxOk cs w0 i j h iv
               | none => "FAIL:parse"
